@@ -206,8 +206,60 @@ def probe_final_join_point():
     return None
 
 
+def probe_sampler_drain():
+    """Sampler.samples hands over the whole queue in order (any backlog size below the queue capacity), and leaves it empty"""
+    from esrally.driver import driver
+
+    for n in (0, 1, 5, 16383, 16384, 16385, 40000):
+        s = driver.Sampler(start_timestamp=0, buffer_size=2**20)
+        for k in range(n):
+            s.q.put_nowait(k)
+        got = s.samples
+        if list(got) != list(range(n)):
+            return f"Sampler.samples with {n} queued samples returned {len(got)} (first mismatch at {next((i for i, (a, b) in enumerate(zip(got, range(n))) if a != b), min(len(got), n))})"
+        if not s.q.empty():
+            return f"Sampler.samples left {s.q.qsize()} of {n} samples in the queue"
+    return None
+
+
+def probe_metrics_handover():
+    """to_externalizable(clear=True) + bulk_add move every record exactly once"""
+    import pickle
+    import zlib
+
+    from esrally import metrics
+
+    src = metrics.InMemoryMetricsStore.__new__(metrics.InMemoryMetricsStore)
+    dst = metrics.InMemoryMetricsStore.__new__(metrics.InMemoryMetricsStore)
+    for st in (src, dst):
+        st.docs = []
+        st.logger = type("L", (), {"debug": lambda *a, **k: None, "info": lambda *a, **k: None})()
+    moved = []
+    for rnd_ in range(3):
+        batch = [{"name": "latency", "value": rnd_ * 10 + k} for k in range(rnd_ + 2)]
+        src.docs.extend(batch)
+        m = src.to_externalizable(clear=True)
+        if [d["value"] for d in pickle.loads(zlib.decompress(m))] != [d["value"] for d in batch]:
+            return f"hand-over {rnd_}: externalised {[d['value'] for d in pickle.loads(zlib.decompress(m))]} but the store held {[d['value'] for d in batch]}"
+        if src.docs:
+            return f"hand-over {rnd_}: {len(src.docs)} records stay in the store after to_externalizable(clear=True)"
+        dst.bulk_add(m)
+        moved.extend(batch)
+        if [d["value"] for d in dst.docs] != [d["value"] for d in moved]:
+            return f"after hand-over {rnd_} race control holds {[d['value'] for d in dst.docs]}, the driver produced {[d['value'] for d in moved]}"
+    keep = metrics.InMemoryMetricsStore.__new__(metrics.InMemoryMetricsStore)
+    keep.docs, keep.logger = [{"name": "x", "value": 1}], src.logger
+    keep.to_externalizable(clear=False)
+    if len(keep.docs) != 1:
+        return "to_externalizable(clear=False) changed the store"
+    dst.bulk_add(None)
+    if len(dst.docs) != len(moved):
+        return "bulk_add(None) changed the store"
+    return None
+
+
 def main(rec):
-    for f in (probe_postprocessor, probe_final_join_point, probe_barrier, probe_completed_by, probe_worker_progress, probe_sampler_handover):
+    for f in (probe_postprocessor, probe_final_join_point, probe_barrier, probe_completed_by, probe_worker_progress, probe_sampler_handover, probe_sampler_drain, probe_metrics_handover):
         try:
             v = f()
         except Exception as ex:  # noqa
